@@ -57,12 +57,14 @@ fn observe(bytes: &[u8], pw: &[u8], cfg: Cfg, with_scan: bool) -> Result<Vec<(St
 }
 
 fn make_prefix(kind: u64, len: usize, r: &mut Rng) -> Vec<u8> {
-    let mut v: Vec<u8> = match kind % 5 {
+    let mut v: Vec<u8> = match kind % 6 {
         0 => vec![0u8; len],
         1 => vec![0xffu8; len],
         2 => r.bytes(len),
         3 => { let t = b"startxref 0\n%%EOF\nxref\n0 1\ntrailer << /Size 1 >>\n1 0 obj << /A 1 >> endobj\n"; (0..len).map(|i| t[i % t.len()]).collect() }
-        _ => { let t = b"\r\n \t% junk mail header: From foo@bar\r\n"; (0..len).map(|i| t[i % t.len()]).collect() }
+        4 => { let t = b"\r\n \t% junk mail header: From foo@bar\r\n"; (0..len).map(|i| t[i % t.len()]).collect() }
+        // look-alikes of the header marker (without the dash) and of other structural keywords; ends in a partial marker
+        _ => { let t = b"%PDF 1.4\n%PDF\n%PD %PDF_ %%EOF startxref\n"; let mut v: Vec<u8> = (0..len).map(|i| t[i % t.len()]).collect(); let tail = b"%PDF"; if len >= 4 { let n = v.len(); v[n - 4..].copy_from_slice(tail); } v }
     };
     // must not contain the header marker
     while let Some(p) = v.windows(5).position(|w| w == b"%PDF-") { v[p] = b'#'; }
@@ -77,7 +79,7 @@ fn generated(seed: u64, k: u64) -> Sample {
 }
 
 pub fn run(run: &Run) {
-    run.rule("every loadable corpus file and generated multi-section files (classic/stream xref, /Prev chains, object streams) x prefixes of every length 1..1019 (files up to 30 KB quick / 200 KB thorough; {1..16, 255, 256, 512, 1000, 1018, 1019} + random lengths otherwise) x contents {zeros, 0xFF, random, PDF-token-like text, mail-header-like} never containing %PDF-; the prefixed file must load and give identical trailer, version, resolve(n) for all n (streams as dictionary + raw data), page boxes/ops and scan() items. distinct_nontrivial = distinct (file, prefix) pairs with prefix length > 0");
+    run.rule("every loadable corpus file and generated multi-section files (classic/stream xref, /Prev chains, object streams) x prefixes of every length 1..1019 (files up to 30 KB quick / 200 KB thorough; {1..16, 255, 256, 512, 1000, 1018, 1019} + random lengths otherwise) x contents {zeros, 0xFF, random, PDF-token-like text, mail-header-like, header look-alikes without the dash} never containing %PDF-; the prefixed file must load and give identical trailer, version, resolve(n) for all n (streams as dictionary + raw data), page boxes/ops and scan() items. distinct_nontrivial = distinct (file, prefix) pairs with prefix length > 0");
     run.assume("baseline = the same file without prefix read by the same library build; files whose unprefixed baseline does not load are skipped and listed");
     let mut samples = valid_files();
     let ngen = run.n(12, 400);
@@ -92,13 +94,13 @@ pub fn run(run: &Run) {
         let big = s.bytes.len() > 60_000;
         let lens: Vec<usize> = if big { vec![1, 7, 1019] } else if run.quick() { let mut v = fixed_lens.clone(); for _ in 0..3 { v.push(1 + r.below(1019) as usize); } v } else { let mut v = fixed_lens.clone(); for _ in 0..30 { v.push(1 + r.below(1019) as usize); } v };
         for (j, l) in lens.iter().enumerate() {
-            let kinds: Vec<u64> = if run.quick() && !(j % 4 == 0) { vec![(si + j) as u64 % 5] } else { vec![0, 1, 2, 3, 4] };
+            let kinds: Vec<u64> = if run.quick() && !(j % 4 == 0) { vec![(si + j) as u64 % 6] } else { vec![0, 1, 2, 3, 4, 5] };
             for k in kinds { work.push((si, *l, k)); }
         }
         // every prefix length 1..=1019 (one content kind each): a slip between header-relative and absolute positions may
         // show for a single length only (e.g. the distance between two cross-reference sections)
         if s.bytes.len() <= if run.quick() { 30_000 } else { 200_000 } {
-            for l in 1..=1019usize { if !lens.contains(&l) { work.push((si, l, (l as u64 + si as u64) % 5)); } }
+            for l in 1..=1019usize { if !lens.contains(&l) { work.push((si, l, (l as u64 + si as u64) % 6)); } }
             exhaustive_files += 1;
         }
     }
